@@ -371,11 +371,14 @@ def parseFault (s : String) : Fault :=
   if s = "ser" then .ser else if s = "tx" then .tx else if s = "read" then .read
   else if s = "dec" then .dec else if s = "dect" then .dect else .none
 
-/-- response payload spec: `ok<vhex>:<k>` or `bad` -/
+/-- response payload spec: `ok<vhex>:<k>[:<status>]` or `bad[:<status>]`.  The HTTP status of the response is ignored: neither
+    the code (`decodeResponseBody` reads and deserializes whatever came back) nor the property's statement ("the response body is
+    deserialized into the supplied target") looks at it. -/
 def parseResp (s : String) : Option Target :=
   if s.startsWith "ok" then
     match (s.drop 2).toString.splitOn ":" with
     | [v, k] => some (unhex v.toList, k.toInt?.getD 0)
+    | [v, k, _status] => some (unhex v.toList, k.toInt?.getD 0)
     | _ => none
   else none
 
